@@ -1330,7 +1330,7 @@ def coq_comment_safe(s):
 # ------------------------------------------------------------------------------------------
 # output
 # ------------------------------------------------------------------------------------------
-HEADER = """(* GENERATED from %s by tools/c2gallina.py (clang AST -> Gallina) -- do not edit.
+HEADER = """(* GENERATED from %s of the checked source tree by tools/c2gallina.py (clang AST -> Gallina) -- do not edit.
    One definition c_<fn> per translated C function; c_<fn>_ok is true when the evaluation meets no
    undefined operation (see Model/CSem.v, NOTES-c2g.md).  Constants were folded by the translator;
    Gen/FuncsCheck.v lets Coq recompute each of them from the unfolded expression. *)
@@ -1433,9 +1433,9 @@ def translate_all(repo, only=None, force_refuse=None):
             res = "let '(%s) := %s in Some ([%s], %s)" % (", ".join(rv), call, "; ".join(enc(v, t) for v, t in zip(rv, rts)), callok)
         disp.append("  if fn =? %d then match args with [%s] => %s | _ => None end else" % (s["id"], "; ".join(avars), res))
         names.append("(%d, [%s])" % (s["id"], "; ".join(str(b) for b in n.encode())))
-    funcs_v = HEADER % os.path.join(repo, "src/static.c") + "\n" + "\n".join(out)
+    funcs_v = HEADER % "src/static.c" + "\n" + "\n".join(out)
     # first line of every function's text in the file (to attribute a Coq error to a function)
-    line, spans = (HEADER % os.path.join(repo, "src/static.c")).count("\n") + 2, []
+    line, spans = (HEADER % "src/static.c").count("\n") + 2, []
     for s_, o_ in zip(specs, out):
         spans.append((line, s_["c"])); line += o_.count("\n") + 1
     report["line_of"] = spans
@@ -1466,7 +1466,7 @@ def generate():
         import traceback
         why = "translator crashed: %s" % traceback.format_exc()[-600:]
         report = {"functions": {}, "repo": vlib.REPO, "translated": [], "refused": {s["c"]: why for s in FUNCS}}
-        funcs_v = HEADER % vlib.REPO + "".join("Definition c_%s : c2g_refused := C2G_refused.\nDefinition c_%s_ok : c2g_refused := C2G_refused.\n" % (s["c"], s["c"]) for s in FUNCS)
+        funcs_v = HEADER % "src/static.c" + "".join("Definition c_%s : c2g_refused := C2G_refused.\nDefinition c_%s_ok : c2g_refused := C2G_refused.\n" % (s["c"], s["c"]) for s in FUNCS)
         funcs_v += "Definition c_names : list (N * list N) := [].\nDefinition c_dispatch (fn : N) (args : list N) : option (list N * bool) := None.\n"
         check_v = "(* GENERATED -- translator crashed *)\n"
     # safety net: the generated text must be accepted by Coq, otherwise Extract/All.v (all properties) would not build.
